@@ -12,6 +12,33 @@ BASE_NOTE = (
 )
 
 CLAIMED = {
+    "C15": dict(
+        text="Inductive invariant (groups distinct; every host entry programmed non-zero at its index; every free index cleared; free ∪ used covers the table) proved for every "
+        "operation sequence over {start-up, subscribe, unsubscribe}, every table size, every initial table with each group at most once, every answer {OK, rejection, timeout} and every "
+        "set.pop() choice; corollaries: host view = NCP non-zero entries, index partition, re-subscribe writes nothing, full table refuses, a failing call keeps the free count. "
+        "Tie: exhaustive short histories + random long ones run on the real Multicast class against a stub NCP table and diffed with the model after every call; the same "
+        "predicates are evaluated on the implementation's state (oracle).",
+        ref="6 C15",
+        technique="Lean 4 proof (inductive invariant over op sequences) + exhaustive/random differential vs real Multicast",
+        note="NCP table semantics (an OK write is applied, a rejected or timed-out one is not) is the specification side. ",
+    ),
+    "C16": dict(
+        text="Theorems about a model of write_config on insertion-ordered dicts (defaults merge, overrides, d[k]=d.pop(k), read-compare-skip loop) for every default list, every current-value function, "
+        "every override dict and all accept/reject answers: at most one write per setting, grow-only defaults never written when the NCP reports ≥, overrides verbatim, nothing for disabled settings, "
+        "packet-buffer count last, trace independent of rejections; decide +kernel over the generated DEFAULT_CONFIG / schema keys of every version (buffer count last default, name↔id injective, capacity defaults are grow-only). "
+        "Tie: generated tables + differential of the real EZSP.write_config (stubbed command layer, real voluptuous schema) against the model; oracle on the set commands the stub saw.",
+        ref="6 C16",
+        technique="Lean 4 proof (list/dict lemmas + decide over generated tables) + differential vs real write_config",
+        note="Overrides are modelled after schema validation (voluptuous is exercised by the differential, not modelled). ",
+    ),
+    "C19": dict(
+        text="Theorems for every outcome word and protocol version: the feed raises iff its outcome is a failure preceded by ≥ MAX_WATCHDOG_FAILURES consecutive failures (generated constant), success clears the count, "
+        "keep-alive is nop on v4 and a counter read otherwise with read-and-clear exactly on multiples of the period. Tie: generated constants + exhaustive outcome words (length ≤ 7 quick / 9 thorough, versions 4 and 8) and long runs "
+        "across the period boundary on the real ControllerApplication._watchdog_feed with a stub EZSP, diffed with the model; oracle evaluated on the implementation's trace.",
+        ref="6 C19",
+        technique="Lean 4 proof (induction over outcome words) + exhaustive differential vs real _watchdog_feed",
+        note="zigpy.util.Requests is shimmed harness-side to construct the application object. ",
+    ),
     "C18": dict(
         text="Theorems over the generated SL_STATUS_MAP (regenerated from the imported module every run): pass-through for every unified value, "
         "OK ⇔ success code for all 256 codes of both 8-bit families (decide +kernel over the whole table, lifted to ∀ c < 256), literal steering-code table. "
